@@ -52,7 +52,9 @@ class Proc:
 class Sim:
     def __init__(self, decider, faults=(), max_steps=5000, start_time=1.7e9):
         self.decider = decider
-        self.now = float(start_time)
+        self.now = float(start_time)      # wall clock (subject to injected jumps)
+        self.mono = 0.0                   # monotonic clock: sleeps, wake-ups and lock timeouts run on it
+        self.exit_hooks = []              # callables(proc) run by the "OS" when a process ends normally
         self.seq = 0
         self.steps = 0
         self.max_steps = max_steps
@@ -103,18 +105,26 @@ class Sim:
     def time(self):
         return self.now
 
+    def monotonic(self):
+        return self.mono
+
+    def _advance(self, d):
+        self.now += d
+        self.mono += d
+
     def sleep(self, d):
         p = self.current()
         if p is None:
-            self.now += max(0.0, d)
+            self._advance(max(0.0, d))
             return
-        p.wake = self.now + max(0.0, d)
+        p.wake = self.mono + max(0.0, d)
         self.yield_point("sleep", None, round(d, 6))
 
     # ----------------------------------------------------------------- scheduler side
     def spawn(self, name, fn, start_at=None, op_dur=0.001):
         p = Proc(len(self.procs), name, fn, op_dur)
-        p.wake = self.now if start_at is None else start_at
+        # start_at is given on the wall clock of the caller; convert to the monotonic clock
+        p.wake = self.mono if start_at is None else self.mono + max(0.0, start_at - self.now)
         self.procs.append(p)
         t = threading.Thread(target=self._thread_main, args=(p,), daemon=True)
         p.thread = t
@@ -146,6 +156,12 @@ class Sim:
         finally:
             p.ended_at = self.now
             p.end_seq = self.seq
+            if p.state in ("done", "failed"):
+                for hook in self.exit_hooks:
+                    try:
+                        hook(p)
+                    except Exception:  # noqa
+                        pass
             self.main_sem.release()
 
     def _kill(self, p, torn=None):
@@ -163,9 +179,9 @@ class Sim:
             live = [p for p in self.procs if p.state == "ready"]
             if not live:
                 break
-            runnable = [p for p in live if p.wake <= self.now]
+            runnable = [p for p in live if p.wake <= self.mono]
             if not runnable:
-                self.now = min(p.wake for p in live)
+                self._advance(min(p.wake for p in live) - self.mono)
                 continue
             if self.steps >= self.max_steps:
                 self.truncated = True
@@ -187,7 +203,7 @@ class Sim:
                 kind = f["kind"]
                 self.fired[kind] = self.fired.get(kind, 0) + 1
                 if kind == "stall":
-                    p.wake = self.now + f["dur"]
+                    p.wake = self.mono + f["dur"]
                     self.seq += 1
                     self.history.append((self.seq, p.pid, round(self.now, 6), "STALL", None, f["dur"], None))
                     stalled = True
@@ -204,7 +220,7 @@ class Sim:
                 continue
             self.steps += 1
             self.schedule.append(p.pid)
-            self.now += p.op_dur
+            self._advance(p.op_dur)
             p.sem.release()
             self.main_sem.acquire()
         return self
